@@ -4,6 +4,7 @@ The model side (tot.* ops backed by the Coq models, where present) is compared a
 import os
 HERE = os.path.dirname(os.path.abspath(__file__))
 from vlib import Case, hx, parse_val
+from gen import c05cli
 
 PROP = "C05"
 import glob as _g
@@ -180,3 +181,13 @@ LEVEL_NOTE = ("Partial: time/memory bounds and non-modification of caller buffer
               "snapshots), not theorems; entry points whose model is not yet in Properties/C05.v rest on the malformed-input "
               "stream alone. Trusted: Coq kernel, model transcription, executor glue, Go runtime.")
 TECHNIQUE = "Coq totality theorems over Res-monad models (no Panic/Diverge for all inputs) + malformed-input differential run of every real entry point"
+
+
+# ---- the command-line tool (cli/parsefile.go): a driver of its own, see bin/gen/c05cli.py; bin/check calls `extra`
+# after the generated cases and `replay_extra` for a replay file that carries "extra" ----
+def extra(tier, seed, rng):
+    return c05cli.extra(tier, seed, rng)
+
+
+def replay_extra(d):
+    return c05cli.replay(d)
